@@ -23,12 +23,12 @@ ERROR awkward_ListArray_getitem_next_range_carrylength(
                                   start != kSliceNone, stop != kSliceNone,
                                   length);
     if (step > 0) {
-      for (int64_t j = regular_start;  j < regular_stop;  j += step) {
+      for (int64_t j = regular_start;  j < regular_stop;  j = (regular_stop - j > step ? j + step : regular_stop)) {
         *carrylength = *carrylength + 1;
       }
     }
     else {
-      for (int64_t j = regular_start;  j > regular_stop;  j += step) {
+      for (int64_t j = regular_start;  j > regular_stop;  j = (regular_stop - j < step ? j + step : regular_stop)) {
         *carrylength = *carrylength + 1;
       }
     }
